@@ -16,32 +16,40 @@ def bad(case):
         os.unlink(p)
 case = json.load(open(path))
 assert bad(case)
+def B(c): return c['build'] if 'build' in c else c
+def W(c): return B(c)['world']
 changed = True
 while changed:
     changed = False
-    for k in list(case['world']['entries'].keys()):
-        c = copy.deepcopy(case); del c['world']['entries'][k]
-        c['roots'] = [r for r in c['roots'] if r in c['world']['entries']] or c['roots']
+    for k in list(W(case)['entries'].keys()):
+        c = copy.deepcopy(case); del W(c)['entries'][k]
+        B(c)['roots'] = [r for r in B(c)['roots'] if r in W(c)['entries']] or B(c)['roots']
         if bad(c): case = c; changed = True
-    for k, e in list(case['world']['entries'].items()):
+    for k, e in list(W(case)['entries'].items()):
         if isinstance(e, dict) and 'Src' in e:
             i = 0
-            while i < len(case['world']['entries'][k]['Src']['items']):
-                c = copy.deepcopy(case); del c['world']['entries'][k]['Src']['items'][i]
+            while i < len(W(case)['entries'][k]['Src']['items']):
+                c = copy.deepcopy(case); del W(c)['entries'][k]['Src']['items'][i]
                 if bad(c): case = c; changed = True
                 else: i += 1
-            if case['world']['entries'][k]['Src']['headers']:
-                c = copy.deepcopy(case); c['world']['entries'][k]['Src']['headers'] = []
+            if W(case)['entries'][k]['Src']['headers']:
+                c = copy.deepcopy(case); W(c)['entries'][k]['Src']['headers'] = []
                 if bad(c): case = c; changed = True
-    for i in range(len(case['roots'])-1, -1, -1):
-        if len(case['roots']) > 1:
-            c = copy.deepcopy(case); del c['roots'][i]
+    for i in range(len(B(case)['roots'])-1, -1, -1):
+        if len(B(case)['roots']) > 1:
+            c = copy.deepcopy(case); del B(c)['roots'][i]
             if bad(c): case = c; changed = True
-    if case.get('imports'):
-        c = copy.deepcopy(case); c['imports'] = []
+    if B(case).get('imports'):
+        c = copy.deepcopy(case); B(c)['imports'] = []
         if bad(c): case = c; changed = True
-    for k, v in list(case['opts'].items()):
+    for k, v in list(B(case)['opts'].items()):
         if v not in (0, False):
-            c = copy.deepcopy(case); c['opts'][k] = 0 if isinstance(v, int) and not isinstance(v, bool) else False
+            c = copy.deepcopy(case); B(c)['opts'][k] = 0 if isinstance(v, int) and not isinstance(v, bool) else False
             if bad(c): case = c; changed = True
+if 'faults' in case:
+    i = 0
+    while i < len(case['faults']):
+        c = copy.deepcopy(case); del c['faults'][i]
+        if bad(c): case = c
+        else: i += 1
 print(json.dumps(case, separators=(',', ':')))
